@@ -2,6 +2,7 @@
 coercion order of the comparison operators."""
 import re
 
+import kindflow
 import xpath_functions as XF
 import xptable
 from common import Finding, Result
@@ -293,22 +294,50 @@ def r09_3(facts, res):
     # = and != : node-set first, then boolean, then number, then string (XPath 1.0 3.4)
     for fn_, node_fn, op in (("equal_value", "equal_node", "=="), ("not_equal_value", "not_equal_node", "!=")):
         f = facts.fn("xml_xpath::eval::" + fn_)
-        chain = if_chain(f["body"])
-        want = [(["is_node", "is_node"], "xml_xpath::eval::" + node_fn), (["is_bool", "is_bool"], BOOL_TRY),
-                (["is_number", "is_number"], NUMBER_TRY), ([], STRING_TRY)]
+        # kindflow: under which kinds of (a, b) is each conversion / delegate reached, and which comparison operator with it
+        targets = {"xml_xpath::eval::" + node_fn: "node", BOOL_TRY: "boolean", NUMBER_TRY: "number", STRING_TRY: "string"}
+
+        def callee_of(n):
+            if n.get("k") == "Call" and n["f"].get("k") == "Path":
+                fid = n["f"].get("rid") or n["f"].get("id")
+                return facts.name_of(fid) if fid in facts.fns else n["f"].get("path")
+            if n.get("k") == "MethodCall":
+                fid = n.get("rid") or n.get("id")
+                return facts.name_of(fid) if fid in facts.fns else n.get("path")
+            return None
         st["instances"] += 4
-        if len(chain) != 4:
-            fail(fn_ + "|shape", "%s: expected the chain node-set / boolean / number / string, found %d branches" % (fn_, len(chain)), f)
+        try:
+            kf = kindflow.KindFlow(facts, f, "eval::model::Value")
+            hits = kf.run(lambda n: callee_of(n) in targets or (n.get("k") == "Binary" and n.get("op") in ("==", "!=")))
+        except kindflow.Unknown as u:
+            fail(fn_ + "|shape", "%s: %s" % (fn_, u), f)
             continue
-        for i, ((methods, body), (wm, wc)) in enumerate(zip(chain, want)):
-            got = [m for m in methods if m.startswith("is_")]
-            calls = arm_callees(facts, body)
-            ok = got == wm and wc in calls and (i == 0 or op in binops(body))
-            res.oblige(1, ok)
-            if not ok:
-                res.add(Finding("R09-3", "%s|branch%d" % (fn_, i + 1),
-                                "%s: branch %d tests %s and applies %s; XPath 1.0 3.4 wants %s -> %s with %s"
-                                % (fn_, i + 1, got, ws(calls), wm or "otherwise", wc.split("::")[-3:], op), f["file"], f["line"], {}))
+        if len(kf.idx) != 2:
+            fail(fn_ + "|shape", "%s: expected two operands of type Value" % fn_, f)
+            continue
+        per = {s_: set() for s_ in kf.universe}
+        for n, S in hits:
+            what = targets.get(callee_of(n)) or n.get("op")
+            for s_ in S:
+                per[s_].add(what)
+        classes = [("node", lambda s_: "Node" in s_, 1), ("boolean", lambda s_: "Boolean" in s_, 2),
+                   ("number", lambda s_: "Number" in s_, 3), ("string", lambda s_: True, 4)]
+        bad = {}
+        for s_ in sorted(kf.universe):
+            cls, _, bi = next(c for c in classes if c[1](s_))
+            wantset = {cls} if cls == "node" else {cls, op}
+            got = per[s_]
+            if cls == "node":
+                got = got - {"==", "!="} if got & {"node"} else got
+            if got != wantset:
+                bad.setdefault(bi, []).append((s_, sorted(got), sorted(wantset)))
+        for bi in (1, 2, 3, 4):
+            res.oblige(1, bi not in bad)
+            if bi in bad:
+                s_, got, wantset = bad[bi][0]
+                res.add(Finding("R09-3", "%s|branch%d" % (fn_, bi),
+                                "%s: for operands of kinds %s it applies %s; XPath 1.0 3.4 (node-set, else boolean, else number, else string) "
+                                "wants %s" % (fn_, list(s_), got, wantset), f["file"], f["line"], {}))
     # relational operators: both operands to numbers; node-set cases delegated with the right orientation
     for fn_, (n1, n2, op) in REL.items():
         f = facts.fn("xml_xpath::eval::" + fn_)
